@@ -8,32 +8,34 @@ CONSTANTS Seed, WriteLens, WriteLens2, OneShotLens, MaxOps, OutFile
 R  == INSTANCE Prng
 Hx == INSTANCE Hex
 Em == INSTANCE Emit
-VARIABLES nops, hist
-vars == <<msg, cv, snap, reply, nops, hist>>
-View == <<msg, snap = <<>>, IF snap = <<>> THEN <<>> ELSE snap[1], nops>>
+VARIABLES nops, hist,
+          summed   \* objects that served a Sum since their last state-changing call.  Not part of the abstract state (Sum is pure);
+                   \* it is in the VIEW so that the histories "Sum; X" and "X" are both continued (an implementation may cache at Sum)
+vars == <<msg, cv, snap, reply, nops, hist, summed>>
+View == <<msg, snap = <<>>, IF snap = <<>> THEN <<>> ELSE snap[1], nops, summed>>
 
 Chunk(o, n) == R!BytesFrom(Seed, 20 + o, Len(msg[o]), n)
-Init == HInit /\ nops = 0 /\ hist = <<[op |-> "new"]>>
+Init == HInit /\ nops = 0 /\ hist = <<[op |-> "new"]>> /\ summed = {}
 Step(ev) == /\ nops < MaxOps /\ nops' = nops + 1
             /\ hist' = Append(hist, ev)
             /\ Em!Line(OutFile, ToJson([fam |-> "sm3hash", steps |-> hist']))
 
-NWrite(o, n) == /\ Len(msg[o]) + n <= 400
+NWrite(o, n) == /\ Len(msg[o]) + n <= 400 /\ summed' = summed \ {o}
                 /\ Write(o, Chunk(o, n))
                 /\ Step([op |-> "write", o |-> o, data |-> Hx!FromBytes(Chunk(o, n)),
                          exp |-> Hx!FromBytes(H!Finish(cv'[o], SubSeq(msg'[o], Whole(Len(msg'[o])) + 1, Len(msg'[o])), Len(msg'[o])))])   \* digest after the write: every transition is observed
-NSum(o)      == /\ Sum(o, <<171>>)
+NSum(o)      == /\ Sum(o, <<171>>) /\ summed' = summed \cup {o}
                 /\ Step([op |-> "sum", o |-> o, prefix |-> "ab", exp |-> Hx!FromBytes(reply')])
-NReset(o)    == /\ msg[o] # <<>> /\ Reset(o) /\ Step([op |-> "reset", o |-> o, exp |-> Hx!FromBytes(H!Hash(<<>>))])
-NMarshal(o)  == /\ Marshal(o) /\ Step([op |-> "marshal", o |-> o])
-NUnmarshal(o) == /\ Unmarshal(o)
+NReset(o)    == /\ msg[o] # <<>> /\ Reset(o) /\ summed' = summed \ {o} /\ Step([op |-> "reset", o |-> o, exp |-> Hx!FromBytes(H!Hash(<<>>))])
+NMarshal(o)  == /\ Marshal(o) /\ UNCHANGED summed /\ Step([op |-> "marshal", o |-> o])
+NUnmarshal(o) == /\ Unmarshal(o) /\ summed' = summed \ {o}
                  /\ Step([op |-> "unmarshal", o |-> o,
                           exp |-> Hx!FromBytes(H!Finish(snap[2], SubSeq(snap[1], Whole(Len(snap[1])) + 1, Len(snap[1])), Len(snap[1])))])
 (* the package-level one-shot function: no object state involved *)
 NOneShot(n)  == /\ nops = 0
                 /\ LET d == R!Bytes(Seed, 31, n) IN
                    /\ reply' = H!Hash(d)
-                   /\ UNCHANGED <<msg, cv, snap>>
+                   /\ UNCHANGED <<msg, cv, snap, summed>>
                    /\ nops' = MaxOps
                    /\ hist' = Append(hist, [op |-> "oneshot", data |-> Hx!FromBytes(d), exp |-> Hx!FromBytes(reply')])
                    /\ Em!Line(OutFile, ToJson([fam |-> "sm3hash", steps |-> hist']))
